@@ -994,6 +994,12 @@ impl OcflRepo {
         inventory.type_declaration = version.inventory_type().to_string();
         staging.stage_inventory(&inventory, false, false)?;
 
+        if inventory.is_new() {
+            // The object has never been committed, so the staged object root that will be
+            // moved into the repository still declares the version it was created with
+            staging.stage_object_declaration(&inventory)?;
+        }
+
         self.commit_inner(object_id, meta, None, pretty_print, staging)
     }
 
